@@ -45,4 +45,20 @@ PROPS = {
         "assumptions": ["a panicking retain_keys ends the history (the map may be half-updated)"],
         "anchors": ["indexing.retain_keys", "string.StringPositionMap", "matrix.MatrixPositionMap"],
     },
+    "C15": {
+        "level": "proof",
+        "stages": ["topo"],
+        "rule": "real OnlineToposort on StableDiGraph<(),()>: every DAG on <=4 nodes (edges i->j, i<j, every node reachable) x every position of one edit group from a repertoire (add edge between any two nodes, add node below any node, remove any node, remove-and-re-add (index reuse), remove any edge), sampled (quick) or all (thorough) pairs of edit groups; random admissible histories generated online (the harness knows what was emitted); random builder-style histories. The scan order of the visited hash set is read through the verif_state hook before every next() and fed to the model; emitted node and ready stack are compared after every call; indices returned by add_node/add_edge are compared with the StableGraph model. Inadmissible histories (judged by the driver at each next call) only check model agreement and clauses 1-2. Non-trivial = >=1 edit and >=2 next calls; distinct by input text.",
+        "trusted_base": TB_EXTERNAL + ["petgraph::StableGraph is modelled (Model/Graph.lean), cross-checked here index for index"],
+        "assumptions": ["admissibility is evaluated at next() calls (edits happen between calls)"],
+        "anchors": ["toposort.next"],
+    },
+    "C10": {
+        "level": "proof",
+        "stages": ["tree"],
+        "rule": "real to_constraints_tree of CharacterPredicate over string and matrix keys on random constraint lists (0..6 constraints), helper constructors with random (also non-transitive) mutex relations, the table domain's four strategies incl. with_powerset with conditioning; exhaustively all lists of <=3 not-in constraints over one first key and 4 other keys (15+15^2+15^3, thorough; half of the triples in quick). Trees read back node for node and compared with the model; the oracle (valid indices, smallest present, reachLabel <-> constraint) is evaluated on the implementation's tree for every truth assignment of the constraints (depth-one trees) resp. all 729 bindings of 6 keys to 3 values (powerset trees). Non-trivial = tree with >=3 nodes; distinct by input text.",
+        "trusted_base": TB_EXTERNAL,
+        "assumptions": ["PGPredicate's own decomposition and conditioned() are exercised in the port-graph stage"],
+        "anchors": ["constraint_tree.with_powerset", "string.to_constraints_tree"],
+    },
 }
